@@ -125,47 +125,3 @@ Section Term.
   Qed.
 End Term.
 
-(* ------------------------------------------------------------------ producer / Next / Close / cancel *)
-
-(* once the context is cancelled, every step is a producer step that brings it closer to
-   having returned, and nothing more is delivered *)
-Theorem cancelled_steps_down : forall s s',
-  cancelled s = true -> step s s' ->
-  cancelled s' = true /\ received s' = received s /\
-  (after_cancel_bound (prod s') < after_cancel_bound (prod s))%nat.
-Proof.
-  intros s s' Hc H. inversion H; subst; cbn in *; try discriminate; (split; [assumption || reflexivity|split; [reflexivity|lia]]).
-Qed.
-
-(* no deadlock: a cancelled system whose producer has not returned can always move *)
-Theorem cancelled_progress : forall s,
-  cancelled s = true -> prod s <> PDone -> exists s', step s s'.
-Proof.
-  intros [p c r] Hc Hp. cbn in *. subst c. destruct p as [todo|todo|id todo|].
-  - eexists. apply st_walk_cancelled.
-  - eexists. apply st_lookup_cancelled.
-  - eexists. apply st_send_cancelled.
-  - contradiction.
-Qed.
-
-(* a returned producer stays returned and nothing is delivered any more *)
-Theorem done_is_final : forall s s', prod s = PDone -> step s s' ->
-  prod s' = PDone /\ received s' = received s.
-Proof. intros s s' Hp H. inversion H; subst; cbn in *; try discriminate; split; assumption || reflexivity. Qed.
-
-Inductive steps : nat -> sys -> sys -> Prop :=
-| steps_O : forall s, steps O s s
-| steps_S : forall n s s' s'', step s s' -> steps n s' s'' -> steps (S n) s s''.
-
-(* Close / cancel at any point: from every state, after the cancellation at most two more
-   steps are possible at all, none of them delivers an id, and the only state without a
-   successor is the one where the producer has returned *)
-Theorem close_terminates : forall s n s',
-  cancelled s = true -> steps n s s' ->
-  (n <= after_cancel_bound (prod s))%nat /\ received s' = received s /\ cancelled s' = true.
-Proof.
-  intros s n s' Hc H. induction H as [s|n s s1 s2 H1 H2 IH].
-  - split; [lia|]. split; [reflexivity|exact Hc].
-  - destruct (cancelled_steps_down s s1 Hc H1) as (C1 & C2 & C3).
-    destruct (IH C1) as (I1 & I2 & I3). split; [lia|]. split; [congruence|exact I3].
-Qed.
